@@ -594,6 +594,12 @@ impl Parser<'_, '_> {
                 | Token::CurlyLeft
                 | Token::SquareLeft
                 | Token::Ident(..)
+                | Token::Keyword(
+                    Keyword::Super
+                        | Keyword::Pkg
+                        | Keyword::Dep
+                        | Keyword::Std
+                )
                 | Token::Bang
                 | Token::Bool(_)
                 | Token::Integer(_, _)
